@@ -1490,7 +1490,7 @@ async def c07_time_active(w):
     for legacy in (False, True):
         hass = await boot_full(legacy=legacy)
         runs = []
-        clock = [dtm.datetime(2024, 3, 13, 12, 0, 0)]
+        clock = [dtm.datetime(2024, 3, 13, 9, 0, 0)]    # the function is defined outside the window: a stale clock reading would show
         saved = T.dt_now
         T.dt_now = lambda: clock[0]
         src = ('@time_active("range(10:00, 14:00)", "not range(11:00, 13:00)")\n@event_trigger("c07_go")\ndef f(**kw):\n    record(kw)\n')
@@ -2762,6 +2762,138 @@ async def c10_reload_bounded(w):
     return {"unit": "load_scripts + GlobalContext.module_import + start_global_contexts on a real tree", "method": "random edit/reload histories vs the statement's changed-set rules",
             "bound": f"{n_hist} histories x <= {w.get('steps', 5)} reloads over {len(C10_FILES)} files", "cases": cases, "failures": failures, "reproduced": bool(failures),
             "distinct_nontrivial": len(nontrivial), "samples": samples}
+
+
+C04_TRIGGERS = [
+    # (decorator argument strings, extra decorator kwargs text, reference predicate name)
+    (["pyscript.v == '1'"], "", "expr_v_is_1"),
+    (["pyscript.v"], "", "any_value"),
+    (["pyscript.v.a"], "", "any_attr_a"),
+    (["pyscript.v.*"], "", "any_attr"),
+    (["pyscript.v.old == '0' and pyscript.v == '1'"], "", "expr_0_to_1"),
+    (["pyscript.v.a == 'x'"], "", "expr_attr_a_is_x"),
+    (["pyscript.v == '1'", "pyscript.u"], "", "expr_v_is_1_or_any_u"),
+    (["pyscript.v == '1'"], ", kwargs={'extra': 7, 'value': 'overridden'}", "expr_v_is_1"),
+    (["pyscript.v == '1' and pyscript.v.a == 'x'"], "", "expr_v1_and_ax"),
+    (["pyscript.v.a == 'x' and pyscript.v.old == '1'"], "", "expr_ax_and_old1"),
+]
+
+
+def c04_reference(pred, ent, new, old):
+    """does the change (entity, new (value, attrs) or None, old ...) qualify?  written from the property statement"""
+    nv, na = (new if new is not None else (None, {}))
+    ov, oa = (old if old is not None else (None, {}))
+    value_changed = nv != ov
+    if pred == "any_value":
+        return ent == "pyscript.v" and value_changed
+    if pred == "any_attr_a":
+        return ent == "pyscript.v" and na.get("a") != oa.get("a")
+    if pred == "any_attr":
+        return ent == "pyscript.v" and any(na.get(k) != oa.get(k) for k in set(na) | set(oa))
+    if pred == "expr_v_is_1":
+        return ent == "pyscript.v" and value_changed and nv == "1"
+    if pred == "expr_0_to_1":
+        return ent == "pyscript.v" and value_changed and ov == "0" and nv == "1"
+    if pred == "expr_attr_a_is_x":
+        return ent == "pyscript.v" and na.get("a") != oa.get("a") and na.get("a") == "x"
+    if pred == "expr_v1_and_ax":
+        return ent == "pyscript.v" and (value_changed or na.get("a") != oa.get("a")) and nv == "1" and na.get("a") == "x"
+    if pred == "expr_ax_and_old1":
+        return ent == "pyscript.v" and (value_changed or na.get("a") != oa.get("a")) and na.get("a") == "x" and ov == "1"
+    if pred == "expr_v_is_1_or_any_u":
+        return (ent == "pyscript.u" and value_changed) or (ent == "pyscript.v" and value_changed and nv == "1")
+    raise KeyError(pred)
+
+
+async def c04_triggers_bounded(w):
+    """Bounded stand-in for the whole chain state change -> State.update -> trigger loop -> function call, both subsystems:
+    every history of <= depth changes (value / attribute a / attribute b / other entity / delete / create) for a set of
+    @state_trigger forms; the function must run exactly for the qualifying changes, in order, with that change's var_name,
+    value and old_value (decorator kwargs overriding)."""
+    import itertools
+    from types import SimpleNamespace as NS
+    from custom_components.pyscript.state import State, StateVal
+    from custom_components.pyscript.global_ctx import GlobalContext, GlobalContextMgr
+    depth = int(w.get("depth", 2))
+    steps = ["v=1", "v=0", "v.a=x", "v.a=y", "v.b=z", "u=1", "u=0", "del v", "v=1,a=x"]
+    failures, cases, nontriv = [], 0, 0
+    samples = []
+    for legacy in (False, True):
+        sub = "legacy" if legacy else "new"
+        if w.get("subsystem") not in (None, sub):
+            continue
+        hass = await boot_full(legacy=legacy)
+        table = fake_states(hass)
+        n = 0
+        for args, kwtxt, pred in C04_TRIGGERS:
+            for hist in itertools.chain.from_iterable(itertools.product(steps, repeat=k) for k in range(1, depth + 1)):
+                n += 1
+                table.clear()
+                State.notify_var_last.clear()
+                world = {"pyscript.v": ("0", {"a": "p", "b": "q"}), "pyscript.u": ("0", {})}
+                for e, (val, at) in world.items():
+                    table[e] = (val, dict(at))
+                runs = []
+                name = f"file.c04_{sub}_{n}"
+                gctx = GlobalContext(name, global_sym_table={"__name__": name, "record": lambda kw_: runs.append({k: (str(v) if v is not None else None) for k, v in kw_.items() if k in ("var_name", "value", "old_value", "extra", "trigger_type")})},
+                                     manager=GlobalContextMgr)
+                GlobalContextMgr.set(name, gctx)
+                gctx.set_auto_start(True)
+                src = f"@state_trigger({', '.join(repr(a) for a in args)}{kwtxt})\ndef f(**kw):\n    record(kw)\n"
+                _, _, exc = await run_source(name, src, global_ctx=gctx)
+                await settle(20)
+                want = []
+
+                def sv(ent, st):
+                    if st is None:
+                        return None
+                    return StateVal(NS(state=st[0], attributes=dict(st[1]), entity_id=ent, last_updated="u", last_changed="c", last_reported="r"))
+                for stp in hist:
+                    ent = "pyscript.u" if stp.startswith("u") else "pyscript.v"
+                    old = world.get(ent)
+                    if stp == "del v":
+                        new = None
+                    else:
+                        val, at = old if old is not None else ("0", {})
+                        at = dict(at)
+                        for piece in stp.split(","):
+                            k, vv = piece.split("=")
+                            k = k.replace("v.", "").replace("u.", "")
+                            if k in ("v", "u"):
+                                val = vv
+                            else:
+                                at[k] = vv
+                        new = (val, at)
+                    if new == old:
+                        continue    # Home Assistant reports no change
+                    world[ent] = new
+                    if new is None:
+                        table.pop(ent, None)
+                    else:
+                        table[ent] = (new[0], dict(new[1]))
+                    nvv, ovv = sv(ent, new), sv(ent, old)
+                    if c04_reference(pred, ent, new, old):
+                        exp = {"trigger_type": "state", "var_name": ent, "value": None if new is None else new[0], "old_value": None if old is None else old[0]}
+                        if kwtxt:
+                            exp.update({"extra": "7", "value": "overridden"})
+                        want.append(exp)
+                    await State.update({ent: nvv, f"{ent}.old": ovv}, {"trigger_type": "state", "var_name": ent, "value": nvv, "old_value": ovv, "context": None})
+                    await settle(25)
+                gctx.stop()
+                GlobalContextMgr.delete(name)
+                await settle(5)
+                cases += 1
+                nontriv += 1 if want else 0
+                if len(samples) < 3 and want:
+                    samples.append({"subsystem": sub, "state_trigger": args, "history": list(hist), "expected_runs": want})
+                if runs != want or exc is not None:
+                    if len(failures) < 3:
+                        failures.append({"signature": f"triggers:{sub}:{args}:{list(hist)}", "subsystem": sub, "state_trigger": args + ([kwtxt] if kwtxt else []), "history": list(hist),
+                                         "observed_runs": runs, "expected_runs": want, "error": repr(exc) if exc else None})
+        await shutdown()
+    return {"unit": "state change -> State.update -> trigger loop -> function call", "method": "real subsystems vs the statement's qualifying predicate",
+            "bound": f"{len(C04_TRIGGERS)} trigger forms x histories of <= {depth} changes from {steps}", "cases": cases, "distinct_nontrivial": nontriv,
+            "samples": samples, "failures": failures, "reproduced": bool(failures)}
 
 
 async def c04_classification_bounded(w):
